@@ -28,6 +28,8 @@ pub enum C07Case {
     Control { text: usize, cfg: Cfg, via: usize },
     /// a document without paragraphs (index into NO_PARA_TEXTS)
     Fixed { text: usize, cfg: Cfg },
+    /// a generated document with an INDENTED comment line inserted in front of line `at` (a comment line inside a value)
+    InnerComment { doc: DocCase, at: usize, cfg: Cfg },
 }
 
 pub const CONTROL_TEXTS: [&str; 8] = [
@@ -524,8 +526,32 @@ fn check_doc(doc: &Doc, c: &Cfg) -> Vec<Viol> {
     out
 }
 
+/// `text` with an indented comment line in front of line `at` (only where the previous line belongs to a field, so that
+/// the comment sits inside or at the end of that field's value); None elsewhere
+fn with_inner_comment(text: &str, at: usize) -> Option<String> {
+    let lines: Vec<&str> = text.split_inclusive('\n').collect();
+    if at == 0 || at > lines.len() {
+        return None;
+    }
+    let prev = lines[at - 1];
+    if !prev.ends_with('\n') || prev.trim().is_empty() || prev.starts_with('#') {
+        return None;
+    }
+    let mut out = String::new();
+    for (i, l) in lines.iter().enumerate() {
+        if i == at {
+            out.push_str(" # ic\n");
+        }
+        out.push_str(l);
+    }
+    if at == lines.len() {
+        out.push_str(" # ic\n");
+    }
+    Some(out)
+}
+
 /// documents without any paragraph
-pub const NO_PARA_TEXTS: [&str; 5] = ["", "# c\n", "\n\n", "# c\n\n# d\n", "\n# c\n"];
+pub const NO_PARA_TEXTS: [&str; 8] = ["", "# c\n", "\n\n", "# c\n\n# d\n", "\n# c\n", "A: v\n # c\n w\n", "A:\n # c\n w\n", "A: v\n w\n # c\nB: x\n"];
 
 /// live documents that contain a paragraph WITHOUT fields (which no text can express): (text, how) with how = index of the
 /// paragraph whose fields are all removed, or 100 = add_paragraph() at the end, 101 = insert_paragraph(0)
@@ -557,7 +583,15 @@ fn check_fixed(ti: usize, c: &Cfg) -> Vec<Viol> {
         }
         (*t, d)
     };
-    let result = wrap_doc(&d, c);
+    out.extend(check_text(text, &d, c));
+    out
+}
+
+/// Reformat `d` (the document read from or derived from `text`) and check it against its own accessors: parses, same
+/// content, live object == re-read, comments kept on lines of their own, one blank line between paragraphs, idempotent.
+fn check_text(text: &str, d: &Deb822, c: &Cfg) -> Vec<Viol> {
+    let mut out = vec![];
+    let result = wrap_doc(d, c);
     let out_text = result.to_string();
     let ctx = |what: &str| format!("input {:?} cfg {:?} output {:?}: {}", text, c, out_text, what);
     match Deb822::from_str(&out_text) {
@@ -577,14 +611,26 @@ fn check_fixed(ti: usize, c: &Cfg) -> Vec<Viol> {
                 ps.sort();
                 ps
             };
-            if norm(&re, false) != norm(&d, true) {
-                out.push(viol("content-kept", ctx(&format!("content {:?}, expected {:?}", norm(&re, false), norm(&d, true)))));
+            if norm(&re, false) != norm(d, true) {
+                out.push(viol("content-kept", ctx(&format!("content {:?}, expected {:?}", norm(&re, false), norm(d, true)))));
+            }
+            // the returned object reports what its printed text re-reads to
+            let live: Vec<Vec<(String, String)>> = result.paragraphs().map(|p| p.items().collect()).collect();
+            let reread: Vec<Vec<(String, String)>> = re.paragraphs().map(|p| p.items().collect()).collect();
+            if live != reread {
+                out.push(viol("live-equals-reread", ctx(&format!("live {:?} re-read {:?}", live, reread))));
             }
         }
     }
     for cl in text.lines().filter(|l| l.starts_with('#')) {
         if out_text.lines().filter(|l| *l == cl).count() != 1 {
             out.push(viol("comment-kept-on-own-line", ctx(&format!("comment {:?}", cl))));
+        }
+    }
+    // comment lines inside a value (indented) stay comment lines of their own, whatever their new indentation
+    for cl in text.lines().filter(|l| l.starts_with([' ', '\t']) && l.trim_start().starts_with('#')) {
+        if out_text.lines().filter(|l| l.trim() == cl.trim()).count() != 1 {
+            out.push(viol("comment-kept-on-own-line", ctx(&format!("comment {:?} inside a value", cl.trim()))));
         }
     }
     // exactly one blank line between paragraphs, none doubled
@@ -877,6 +923,32 @@ impl Prop for C07 {
                     }
                 });
             }
+            // comment lines inside values: every k<=1 layout of the 1x2 and 2x1 skeletons, the comment in front of every line
+            for sk in [Skel { paras: 1, fields: 2 }, Skel { paras: 2, fields: 1 }] {
+                let m = menus(sk);
+                let mut go = |v: &[usize]| {
+                    if let Some(d) = render_opt(sk, v, true) {
+                        let n = d.text.split_inclusive('\n').count();
+                        for at in 1..=n {
+                            if with_inner_comment(&d.text, at).map_or(false, |t| Deb822::from_str(&t).is_ok()) {
+                                product(&cfg_menus(), &mut |cv| {
+                                    let cfg = cfg_from(cv);
+                                    // a field that holds a comment line is deliberately not handed to the formatter, so
+                                    // only the formatters that leave the lines alone have a defined expectation here
+                                    if cfg.fmt >= 2 {
+                                        return;
+                                    }
+                                    f(&C07Case::InnerComment { doc: DocCase { skel: sk, v: v.to_vec(), junk: None, name_char: None }, at, cfg });
+                                });
+                            }
+                        }
+                    }
+                };
+                kdev_shard(&m, 1, None, &mut go);
+                for i in 0..m.len() {
+                    kdev_shard(&m, 1, Some(i), &mut go);
+                }
+            }
             for text in 0..NO_PARA_TEXTS.len() + EMPTIED.len() {
                 product(&cfg_menus(), &mut |cv| {
                     f(&C07Case::Fixed { text, cfg: cfg_from(cv) });
@@ -929,6 +1001,13 @@ impl Prop for C07 {
             },
             C07Case::Control { text, cfg, via } => check_control(*text, cfg, *via),
             C07Case::Fixed { text, cfg } => check_fixed(*text, cfg),
+            C07Case::InnerComment { doc, at, cfg } => match render_opt(doc.skel, &doc.v, true).and_then(|d| with_inner_comment(&d.text, *at)) {
+                Some(text) => match Deb822::from_str(&text) {
+                    Ok(d) => check_text(&text, &d, cfg),
+                    Err(_) => vec![],
+                },
+                None => vec![],
+            },
         });
         match r {
             Ok(vs) => {
@@ -957,6 +1036,16 @@ impl Prop for C07 {
                         let mut v = cur;
                         v[i] = 0;
                         out.push(C07Case::Doc { doc: doc.clone(), cfg: cfg_from(&v) });
+                    }
+                }
+            }
+            C07Case::InnerComment { doc, at, cfg } => {
+                let cur = [cfg.indent, cfg.iel as usize, cfg.oneliner, cfg.porder, cfg.eorder, cfg.fmt];
+                for i in 0..cur.len() {
+                    if cur[i] != 0 {
+                        let mut v = cur;
+                        v[i] = 0;
+                        out.push(C07Case::InnerComment { doc: doc.clone(), at: *at, cfg: cfg_from(&v) });
                     }
                 }
             }
